@@ -7,14 +7,14 @@ from lxml import etree
 from harness.core import Result
 from harness import xmlcanon
 
-LEAN_MODULES = ["ZeepProofs.C04"]
+LEAN_MODULES = ["ZeepProofs.C04", "ZeepProofs.C04Flow"]
 NS = "Zeep.Frame."
 THEOREMS = [NS + t for t in ("c04_shape", "c04_doc_body", "c04_rpc_body", "c04_header_parts", "c04_no_header", "c04_http",
-                             "c04_address", "c04_conventions", "body_found")]
+                             "c04_address", "c04_conventions", "body_found", "c04_envelope_ns_matches_source", "c04_content_type_11_matches_source", "c04_content_type_12_matches_source")]
 LEVEL = "proof"
 MANIFEST = dict(
     engine="E: lean/ZeepModel/Soap/Frame.lean",
-    technique="Lean 4 structural theorems about the framing function (for every operation description, rendered part list and header list) + differential tie over generated WSDLs x argument sets x calling conventions with a recording transport",
+    technique="Lean 4 structural theorems about the framing function (for every operation description, rendered part list and header list) + differential tie over generated WSDLs x argument sets x calling conventions with a recording transport; obligations re-checked by `decide` on every run against constants regenerated from the source (translator constants.py): envelope namespace per binding class, Content-Type literals of Soap11Binding / Soap12Binding._set_http_headers",
     text="c04_shape / c04_doc_body / c04_rpc_body / c04_header_parts / c04_http / c04_address are proved for every input of the framing function; the serialisation of each part is a parameter, tied to the standalone serialisation zeep's own element gives for the same argument. Tie: WSDL generator (SOAP 1.1/1.2 x document/rpc x 0-3 parts of element/type kind, simple and complex x 0-2 declared header parts x soapAction present/absent/empty x two services with equally named ports) x argument sets incl. falsy values x four calling conventions; envelope, address and HTTP headers captured at the transport are compared with the model and checked against the statement directly.",
     note="Trusted: standalone serialisation = zeep's own Element.render on the part element (its correctness is C02's subject).",
     design_ref="DESIGN.md section 6, C04",
